@@ -191,7 +191,14 @@ func (s *gateSched) run(forced []int, lateB func(), lateAfter int) (taken []int)
 }
 
 func waitCondTimeout(c *sync.Cond, d time.Duration) bool {
-	t := time.AfterFunc(d, c.Broadcast)
+	// The wake-up takes the lock first: the caller holds it until Wait has put itself on the wait list, so
+	// the broadcast cannot be lost when the timer fires before Wait has started (a 3 ms timer on a busy
+	// machine did exactly that and parked the scheduler for good).
+	t := time.AfterFunc(d, func() {
+		c.L.Lock()
+		c.Broadcast()
+		c.L.Unlock()
+	})
 	c.Wait()
 
 	return t.Stop()
@@ -219,6 +226,10 @@ type exploreCase struct {
 	// response (the id is free again at that moment) - while the other goroutine may still be busy with the
 	// previous transaction of that id
 	Renest bool `json:"renest,omitempty"`
+	// RenestAfter: the same, but from the reader goroutine right after the handler has returned, when the
+	// completed transaction's pooled object has been released (with OneP the next Start gets that very object)
+	RenestAfter bool `json:"renest_after,omitempty"`
+	OneP        bool `json:"one_p,omitempty"`
 }
 
 type exTx struct {
@@ -233,6 +244,9 @@ type exTx struct {
 
 // runExplore executes one schedule; it returns the decisions taken and a violation if any.
 func runExplore(c exploreCase) (taken []int, trace []string, err error) {
+	if c.OneP {
+		defer runtime.GOMAXPROCS(runtime.GOMAXPROCS(1))
+	}
 	noRetrans := c.State == "lastattempt"
 	o := sim.Options{RTO: 100 * time.Millisecond, NoRetransmit: noRetrans, NoConnClose: c.NoConnClose}
 	var fallbackCalls, fallbackResp0 atomic.Int32
@@ -266,6 +280,7 @@ func runExplore(c exploreCase) (taken []int, trace []string, err error) {
 	w.Clock.OnNow = func() { s.gate("clock.now") }
 	w.Coll.OnClose = func() { s.gate("collector.close") }
 	var readerDone atomic.Bool
+	var restartAfter func()
 	w.Conn.OnRead = func() {
 		// the reader goroutine is a controlled role only while it processes the explored datagram
 		if delivering.Load() && !readerDone.Load() {
@@ -274,6 +289,11 @@ func runExplore(c exploreCase) (taken []int, trace []string, err error) {
 			s.mu.Unlock()
 			if known {
 				readerDone.Store(true)
+				if c.RenestAfter && restartAfter != nil {
+					// the id is used again right after the response has been handled (the completed
+					// transaction's object is back in the pool by now), still as part of role B
+					restartAfter()
+				}
 				s.finish("B")
 			}
 		}
@@ -307,6 +327,15 @@ func runExplore(c exploreCase) (taken []int, trace []string, err error) {
 			t.err = w.Client.Start(request(t.id, 28), h)
 		}
 		t.ret.Store(true)
+	}
+	restartAfter = func() {
+		txMu.Lock()
+		first := txs[0]
+		txMu.Unlock()
+		if first.id == 0 && first.calls.Load() > 0 {
+			nt := newTx(0, false)
+			start(nt)
+		}
 	}
 	// ---- pre-state, gates disabled
 	if c.State != "empty" {
@@ -607,9 +636,9 @@ func exploreAll(t *testing.T, rec *evid.Rec, prop string, budget int, only func(
 					// transactions never share an id.
 					continue
 				}
-				for v := 0; v < 4; v++ {
-					if v == 3 && !(b == "deliver" && a == "tick" && st != "empty" && st != "lastattempt") {
-						continue // id reuse from inside the handler: response || collector tick
+				for v := 0; v < 6; v++ {
+					if v >= 3 && !(b == "deliver" && a == "tick" && st != "empty" && st != "lastattempt") {
+						continue // id reuse from inside / right after the handler: response || collector tick
 					}
 					if v == 1 && !evid.Thorough() && a != "close" && b != "close" && prop != "C12" {
 						continue // quick tier: the WithNoConnClose/fallback variant only where Close takes part
@@ -634,7 +663,7 @@ func exploreAll(t *testing.T, rec *evid.Rec, prop string, budget int, only func(
 						ones[i] = 1
 					}
 					firstLate := 0
-					if v == 3 {
+					if v >= 3 {
 						// The agent's timeout event names the transaction by id only. If the id is used again
 						// before the client has looked that event up, the event is applied to the successor -
 						// inherent to the agent/client interface, not explored. The id is reused only once the
@@ -643,7 +672,7 @@ func exploreAll(t *testing.T, rec *evid.Rec, prop string, budget int, only func(
 						firstLate = 2
 					}
 					for late := firstLate; late <= evid.Pick(8, 12); late++ {
-						c := exploreCase{State: st, A: a, B: b, NoConnClose: v == 1, Fallback: v == 1, LateB: late, NoWaitColl: v == 2, Schedule: ones, Delivery: prop == "C12", Renest: v == 3}
+						c := exploreCase{State: st, A: a, B: b, NoConnClose: v == 1, Fallback: v == 1, LateB: late, NoWaitColl: v == 2, Schedule: ones, Delivery: prop == "C12", Renest: v == 3, RenestAfter: v >= 4, OneP: v == 5}
 						taken, trace, err := runExplore(c)
 						runs++
 						key := fmt.Sprint(trace)
@@ -658,13 +687,13 @@ func exploreAll(t *testing.T, rec *evid.Rec, prop string, budget int, only func(
 							return
 						}
 					}
-					if v == 3 {
+					if v >= 3 {
 						for i := range lates {
 							lates[i] += firstLate
 						}
 					}
 					for _, late := range lates {
-						base := exploreCase{State: st, A: a, B: b, NoConnClose: v == 1, Fallback: v == 1, LateB: late, NoWaitColl: v == 2, Delivery: prop == "C12", Renest: v == 3}
+						base := exploreCase{State: st, A: a, B: b, NoConnClose: v == 1, Fallback: v == 1, LateB: late, NoWaitColl: v == 2, Delivery: prop == "C12", Renest: v == 3, RenestAfter: v >= 4, OneP: v == 5}
 						// depth-first search over two-way decisions
 						stack := [][]int{{}}
 						lruns := 0
